@@ -21,8 +21,10 @@ for mp in sorted(glob.glob(os.path.join(HERE, "seeded", "*", "meta.json"))):
             orc = [l.split("oracle=")[1].split(" ")[0] for l in c.get("lines", []) if "oracle=" in l]
             fired.append("%s (%s)" % (p, ", ".join(sorted(set(orc))[:2])))
     missed = [p for p, c in sorted(m.get("checks", {}).items()) if c["exit"] == 0]
-    rows.append("| `%s` | %s | %s | %s |" % (m["id"], m["breaks_property"], "; ".join(fired) or "**not caught**", ", ".join(missed) or "-"))
-table = ["| seeded change (`/verif/seeded/<id>/`) | written for | caught by quick check (oracle) | quick checks that stayed green |", "|---|---|---|---|"] + rows
+    fp = m.get("first_pass_caught_by")
+    first = "-" if fp is None else ("yes" if fp else "no")
+    rows.append("| `%s` | %s | %s | %s | %s |" % (m["id"], m["breaks_property"], first, "; ".join(fired) or "**not caught**", ", ".join(missed) or "-"))
+table = ["| seeded change (`/verif/seeded/<id>/`) | written for | caught when first run | caught by quick check now (oracle) | quick checks that stayed green |", "|---|---|---|---|---|"] + rows
 s = open(os.path.join(HERE, "DESIGN.md")).read()
 marker = "<!-- seeded-table -->"
 if marker in s:
